@@ -43,6 +43,106 @@ def run(ctx):
     ctx.sample(meta[5]); ctx.sample(meta[-1])
     for i in core.coq_bools('c13', 'Base.Bytes Model.Tag', exprs):
         ctx.corr_fail('model and implementation disagree on %s octets' % meta[i]['kind'], meta[i])
+    run_stacks(ctx)
+
+
+def tag_stack_cases(ctx, n):
+    """base types under tag stacks of depth 0..4 over class x number x {implicit, explicit}"""
+    from harness import gen as G, codec, universe as U
+    r = ctx.rng
+    bases = [('bool',), ('int',), ('enum',), ('bits',), ('octs',), ('null',), ('oid',), ('real',), ('str', 'UTF8String'),
+             ('str', 'IA5String'), ('seq', [('req', ('int',))]), ('seqof', ('null',)), ('set', []), ('setof', ('bool',))]
+    out = []
+    for _ in range(n):
+        T = r.choice(bases)
+        for _ in range(r.randint(0, 4)):
+            t = (r.choice(CLASSES), 0, r.choice(NUMS))
+            T = (r.choice(['imp', 'exp']), t, T)
+        g = G.Gen(r, depth=1)
+        try:
+            out.append(codec.Case(T, g.val(T)))
+        except Exception:
+            pass
+    return out
+
+
+def perturb(T, rng):
+    """the same type with the class or the number changed at one tag position"""
+    path = []
+    X = T
+    while X[0] in ('imp', 'exp'):
+        path.append(X); X = X[2]
+    if not path:
+        return None
+    i = rng.randrange(len(path))
+    def rebuild(k, X):
+        if k == len(path): return X
+        kind, t, _ = path[k]
+        if k == i:
+            if rng.random() < 0.5:
+                t = (rng.choice([c for c in CLASSES if c != t[0]]), t[1], t[2])
+            else:
+                t = (t[0], t[1], t[2] + rng.choice([1, 2, 31]))
+        return (kind, t, rebuild(k + 1, X))
+    return rebuild(0, X)
+
+
+def py_tagset(T):
+    """the type's tags innermost first as (class, number), following tag.py"""
+    if T[0] == 'imp':
+        ts = py_tagset(T[2])
+        return ts[:-1] + [(T[1][0], T[1][2])] if ts else [(T[1][0], T[1][2])]
+    if T[0] == 'exp':
+        return py_tagset(T[2]) + [(T[1][0], T[1][2])]
+    from harness.gen import outer_tags
+    o = outer_tags(T)
+    return [sorted(o)[0]] if o and T[0] not in ('choice', 'any') else []
+
+
+def run_stacks(ctx):
+    from harness import codec, universe as U, implrun as I
+    from harness.gen import base_desc
+    exprs, meta = [], []
+    for c in tag_stack_cases(ctx, ctx.n(150, 3000)):
+        e = I.run_encode('BER', c.obj)
+        if e[0] != 'ok':
+            continue
+        depth = 0
+        X = c.T
+        while X[0] in ('imp', 'exp'):
+            depth += 1; X = X[2]
+        ctx.case(('stack', c.cty, c.cval), depth >= 2)
+        ctx.stats['stack_depth:%d' % depth] += 1
+        m = {'kind': 'stack', 'T': c.T, 'v': c.v, 'bytes': e[1].hex()}
+        d = I.run_decode('BER', e[1], asn1Spec=c.spec)
+        if d[0] != 'ok' or d[2] or not U.aval_eq(U.absval_top(d[1], c.T), c.want):
+            ctx.prop_fail('the type does not accept its own encoding', m)
+        T2 = perturb(c.T, ctx.rng)
+        if T2 is not None and py_tagset(T2) != py_tagset(c.T):
+            try:
+                spec2 = U.build_type(T2)
+            except Exception:
+                spec2 = None
+            if spec2 is not None:
+                d2 = I.run_decode('BER', e[1], asn1Spec=spec2)
+                if d2[0] == 'ok':
+                    ctx.prop_fail('encoding accepted by a type whose tags differ at one level', dict(m, other=T2))
+                elif not I.is_library(d2[1]):
+                    ctx.prop_fail('near-miss type made the decoder crash: %s' % d2[1], dict(m, other=T2))
+                exprs.append('match decode BER (Some %s) %s with Ok _ => 1 | Err EUnmodelled => 2 | Err _ => 0 end' % (U.coq_ty(T2), coqio.cbytes(e[1])))
+                meta.append(dict(m, other=T2, what='near-miss'))
+        # the wire tags: model of the type's tag set against the headers actually emitted
+        exprs.append('match tagset_of %s with Ok ts => if list_eqb (fun a b => tag_eqb a b && Bool.eqb (tcon a) (tcon b)) '
+                     '(spine (length ts) %s) (map (wire_tag %s) (rev ts)) then 0 else 1 | Err _ => 1 end' % (
+                         c.cty, coqio.cbytes(e[1]), 'true' if base_desc(c.T)[0] in ('seq', 'set', 'seqof', 'setof') else 'false'))
+        meta.append(dict(m, what='spine'))
+    codes = core.coq_codes('c13s', 'Model.Enc Model.Dec Model.Obs Proofs.Spine', exprs)
+    for i, cd in codes.items():
+        if cd == 2: ctx.stats['model_declines'] += 1
+        elif meta[i]['what'] == 'spine':
+            ctx.prop_fail('identifier octets on the wire are not the type\'s tags outermost to innermost', meta[i])
+        else:
+            ctx.corr_fail('model accepts a near-miss type the implementation rejects', meta[i])
 
 
 def replay(data):
